@@ -559,6 +559,8 @@ func init() {
 			runReqCrossDeadline(c, 40, 150, busy)
 			runReqCrossDeadline(c, 0, 40, busy)
 		}
+		runReqSendDeadlineLeavesNothing(c, 40, 400)
+		runReqSendDeadlineLeavesNothing(c, 60, 0)
 		skipped := map[string]int{}
 		for _, r := range results {
 			sc := r.scn
